@@ -5,7 +5,7 @@ import os
 V = os.path.dirname(os.path.dirname(os.path.abspath(__file__)))
 FIX = ["FixSize", "FixNewestOnly", "FixSealAtPick", "FixSyncOnSeal", "FixSyncBeforeUnlink", "FixSyncAtClose", "FixSyncRemovedCur"]
 
-def cfg(name, power, restart, maxops, maxcrash, invs, off=(), big=False, keys=2, vals=2, segcap=2, maxseg=4):
+def cfg(name, power, restart, maxops, maxcrash, invs, off=(), big=False, keys=2, vals=2, segcap=2, maxseg=4, backup=None):
     ks = ", ".join("k%d" % i for i in range(1, keys + 1))
     vs = ["v%d" % i for i in range(1, vals + 1)]
     lines = ["SPECIFICATION Spec", "CONSTANTS",
@@ -14,7 +14,10 @@ def cfg(name, power, restart, maxops, maxcrash, invs, off=(), big=False, keys=2,
              "  Power = %s" % ("TRUE" if power else "FALSE"), "  Restart = %s" % ("TRUE" if restart else "FALSE")]
     for f in FIX:
         lines.append("  %s = %s" % (f, "FALSE" if f in off else "TRUE"))
-    lines += ["INVARIANTS " + " ".join(invs), "CHECK_DEADLOCK FALSE", "VIEW View"]
+    if backup:
+        lines[0] = "SPECIFICATION BSpec"
+        lines.append('  Variant = "%s"' % backup)
+    lines += ["INVARIANTS " + " ".join(invs), "CHECK_DEADLOCK FALSE", "VIEW BView" if backup else "VIEW View"]
     open(os.path.join(V, "spec", "cfg", name + ".cfg"), "w").write("\n".join(lines) + "\n")
 
 CRASH = ["Represents", "ReplayOK", "CleanOK", "NoGap", "SyncOK", "CurIsNewest"]
@@ -34,3 +37,12 @@ cfg("wal_pinned_D3b", True, False, 5, 1, ["DurableOK"], off=["FixSyncBeforeUnlin
 cfg("wal_pinned_D9", True, False, 5, 2, ["DurableOK"], off=["FixNewestOnly"])
 cfg("wal_pinned_D4", True, True, 4, 1, ["Represents", "CleanDurableOK"], off=["FixSyncAtClose"])
 cfg("wal_pinned_D6b", True, False, 5, 0, ["SyncOK"], off=["FixSyncRemovedCur"])
+
+# Backup (WalBackup.tla): the code, and three variants that must be refuted
+BACKUP = ["Represents", "ReplayOK", "BackupOK", "BackupNeverFails"]
+cfg("wal_backup_q", False, False, 4, 1, BACKUP, backup="code")
+cfg("wal_backup_m", False, False, 5, 1, BACKUP, backup="code")
+cfg("wal_backup_t", False, True, 6, 1, BACKUP, backup="code", big=True)
+cfg("wal_backup_whole", False, False, 5, 0, ["BackupOK"], backup="whole")
+cfg("wal_backup_nomaint", False, False, 6, 0, ["BackupOK", "BackupNeverFails"], backup="nomaint")
+cfg("wal_backup_listlate", False, False, 5, 0, ["BackupOK"], backup="listlate")
